@@ -37,6 +37,7 @@ deriving DecidableEq, Repr
 structure PG (α : Type) where
   nodes : List α
   edges : List (Edge α)
+deriving DecidableEq
 
 section generic
 variable {α : Type} [DecidableEq α]
